@@ -458,8 +458,7 @@ class SetOrder(Obligation):
     def run_real(self, inp):
         """the uninstrumented code under several hash seeds (one persistent interpreter per seed)"""
         args = [inp["v%d" % i] for i in range(self.n)] + [None] * (3 - self.n)
-        outs = [seed_call(seed, self.kind, args) for seed in SEEDS]
-        return tuple(outs)
+        return _Seeds(self.kind, args)
 
     def _canon(self, x):
         """order-insensitive form, for comparing the model's insertion-order run with one real interpreter"""
@@ -500,6 +499,33 @@ class SetOrder(Obligation):
 
 SEEDS = [0, 1, 2, 3, 4, 5]
 _SERVERS = {}
+
+
+class _Seeds:
+    """results of one kernel under the hash seeds SEEDS, computed on demand: index 0 is this process (path-witness
+    validation needs nothing else), the other interpreters are started only when a counterexample has to be replayed"""
+
+    def __init__(self, kind, args):
+        self.kind, self.args, self.cache = kind, args, {}
+
+    def __len__(self):
+        return len(SEEDS)
+
+    def _get(self, i):
+        if i not in self.cache:
+            if i == 0:
+                self.cache[i] = call_catching(SET_KERNELS[self.kind], _R(), *self.args)
+            else:
+                self.cache[i] = seed_call(SEEDS[i], self.kind, self.args)
+        return self.cache[i]
+
+    def __getitem__(self, i):
+        if isinstance(i, slice):
+            return [self._get(k) for k in range(*i.indices(len(SEEDS)))]
+        return self._get(i)
+
+    def __iter__(self):
+        return iter([self._get(k) for k in range(len(SEEDS))])
 
 
 def seed_call(seed, kind, args, _retry=True):
